@@ -526,6 +526,36 @@ func cowExhaustive(tier string) []corr.Case {
 			cases = append(cases, corr.Case{Lines: append(append(append([]string{}, setup...), ops...), "snapshot")})
 		}
 	}
+	// a base file larger than any copy buffer (32 KiB): after the copy-up nothing of the overlay's copy may still be
+	// the base's memory — patch it, truncate and rewrite it, and the base must keep every byte
+	for _, st := range []string{"cow-mem", "cow-ro"} {
+		big := strings.Repeat("000102030405060708090a0b0c0d0e0f", 2600) // 41600 bytes
+		l := []string{"case " + st, "b.mkdirall " + h("/d") + " 493", "b.create " + h("/d/big"), "h.write 0 " + big, "h.close 0", "b.age",
+			"rtpatch " + h("/d/big") + " 100 5858585858585858", "snapshot",
+			"openfile " + h("/d/big") + " 514 420", "h.write 1 6e657720636f6e74656e7473", "h.close 1", "snapshot",
+			"create " + h("/d/big"), "h.write 2 7a", "h.close 2", "snapshot"}
+		cases = append(cases, corr.Case{Lines: l})
+		l = []string{"case " + st, "b.mkdirall " + h("/d") + " 493", "b.create " + h("/d/big"), "h.write 0 " + big, "h.close 0", "b.age",
+			"chmod " + h("/d/big") + " 384", "openfile " + h("/d/big") + " 2 420", "h.writeat 1 5959595959 33000", "h.seek 1 5 0", "h.write 1 5a5a", "h.trunc 1 7", "h.close 1", "snapshot"}
+		cases = append(cases, corr.Case{Lines: l})
+	}
+	// a listing through a union handle, a rewind of the handle, a listing again: every name once
+	for _, st := range stacks {
+		l := []string{"case " + st, "b.mkdirall " + h("/d") + " 493", "l.mkdirall " + h("/d") + " 493"}
+		nh := 0
+		for _, n := range []string{"/d/b1", "/d/b2", "/d/both"} {
+			l = append(l, "b.create "+h(n), fmt.Sprintf("h.close %d", nh))
+			nh++
+		}
+		for _, n := range []string{"/d/l1", "/d/both"} {
+			l = append(l, "l.create "+h(n), fmt.Sprintf("h.close %d", nh))
+			nh++
+		}
+		l = append(l, "b.age", "open "+h("/d"), fmt.Sprintf("h.readdirnames %d -1", nh), fmt.Sprintf("h.seek %d 0 0", nh), fmt.Sprintf("h.readdirnames %d -1", nh),
+			"open "+h("/d"), fmt.Sprintf("h.readdir %d 2", nh+1), fmt.Sprintf("h.seek %d 0 0", nh+1), fmt.Sprintf("h.readdir %d 2", nh+1), fmt.Sprintf("h.readdir %d -1", nh+1),
+			"chmod "+h("/d/b1")+" 384", "open "+h("/d"), fmt.Sprintf("h.readdirnames %d 2", nh+2), "chmod "+h("/d/b2")+" 384", fmt.Sprintf("h.seek %d 0 0", nh+2), fmt.Sprintf("h.readdirnames %d -1", nh+2), "snapshot")
+		cases = append(cases, corr.Case{Lines: l})
+	}
 	// a wide directory (more entries than any small-slice special case of a sort or a map): every
 	// name in both layers with different sizes, listed whole and in pages
 	for _, st := range stacks {
